@@ -231,6 +231,9 @@ def updBounds (b : Bytes × Bytes) (ks : List Bytes) : Bytes × Bytes :=
 /-- the bounds after the callback has seen the non-empty key batches `bs` (oldest first) -/
 def boundsOf (bs : List (List Bytes)) : Bytes × Bytes := bs.foldl updBounds ([], [])
 
+/-- what the callback can see: every flushed buffer is non-empty (`memdb.Len() == 0` returns early) and keys are non-empty -/
+def validBatches (bs : List (List Bytes)) : Prop := ∀ b ∈ bs, b ≠ [] ∧ ∀ k ∈ b, k ≠ []
+
 /-- `Flush` past all checks: swap the buffers, bump the generation, call the flush function in a goroutine.
     With the callback layer the function returns at once when the committer is closed (error) or the buffer is
     empty (nil); otherwise it updates the range bounds and the primary and sends the Flush requests. -/
